@@ -32,6 +32,8 @@ type progT struct {
 	N      int        `json:"n"`
 	Family string     `json:"family"`
 	Procs  [][]string `json:"procs"`
+	Inst   int        `json:"inst"` // instances of every type in the program's world (1..3)
+	On     []int      `json:"on"`   // per process: the instance (1-based) all of its operations use
 	Iters  int        `json:"iters"`
 }
 
@@ -39,6 +41,8 @@ type obsT struct {
 	N       int            `json:"n"`
 	Family  string         `json:"family"`
 	Procs   [][]string     `json:"procs"`
+	Inst    int            `json:"inst"`
+	On      []int          `json:"on"`
 	Iters   int            `json:"iters"`
 	Done    []int          `json:"done"`    // per process: operations completed over all iterations
 	Planned []int          `json:"planned"` // per process: iters * len(ops)
@@ -53,6 +57,7 @@ type obsT struct {
 // proc is the private state of one process (goroutine) of a program.
 type proc struct {
 	p      int
+	in     int // instance (0-based) this process works on
 	seq    int
 	rnd    *lrand
 	done   int
@@ -111,11 +116,26 @@ func main() {
 }
 
 func runProgram(c progT, base int) obsT {
-	o := obsT{N: c.N, Family: c.Family, Procs: c.Procs, Iters: c.Iters, Ops: map[string]int{}, Panics: []string{}}
+	if c.Inst < 1 {
+		c.Inst = 1
+	}
+	if len(c.On) != len(c.Procs) {
+		c.On = make([]int, len(c.Procs))
+		for p := range c.On {
+			c.On[p] = 1
+		}
+	}
+	o := obsT{N: c.N, Family: c.Family, Procs: c.Procs, Inst: c.Inst, On: c.On, Iters: c.Iters, Ops: map[string]int{}, Panics: []string{}}
 	o.Done = make([]int, len(c.Procs))
 	o.Planned = make([]int, len(c.Procs))
 	for p := range c.Procs {
 		o.Planned[p] = c.Iters * len(c.Procs[p])
+	}
+	for _, i := range c.On {
+		if i < 1 || i > c.Inst || c.Inst > 3 {
+			o.Problem = "bad instance assignment"
+			return o
+		}
 	}
 	need := map[string]bool{}
 	for _, ops := range c.Procs {
@@ -132,10 +152,10 @@ func runProgram(c progT, base int) obsT {
 	}
 	t0 := time.Now()
 	for it := 0; it < c.Iters && o.Problem == ""; it++ {
-		w := newWorld(need)
+		w := newWorld(need, c.Inst)
 		procs := make([]*proc, len(c.Procs))
 		for p := range c.Procs {
-			procs[p] = &proc{p: p, rnd: &lrand{s: uint64(hx.Seed())*7919 + uint64(c.N)*104729 + uint64(it)*1299709 + uint64(p)*15485863 + 88172645463325252},
+			procs[p] = &proc{p: p, in: c.On[p] - 1, rnd: &lrand{s: uint64(hx.Seed())*7919 + uint64(c.N)*104729 + uint64(it)*1299709 + uint64(p)*15485863 + 88172645463325252},
 				ops: map[string]int{}, lastID: map[string]string{}}
 		}
 		var wg sync.WaitGroup
